@@ -300,7 +300,11 @@ func checkC03(c *Ctx) {
 	seenSweep := map[*SQLStmt]bool{}
 	for _, be := range []string{"sqlite", "postgres"} {
 		for _, t := range p.sqlTransitions(be) {
-			if t.Root != "Dequeue" || seenSweep[t.Stmt] || t.Kind == "insert" || t.To == "leased" {
+			// holder operations are fenced by the presented lease id (C04.R1) and operator cancels are named in the
+			// statement; every other statement that can take a row out of leased — reachable from Dequeue, from any
+			// other Store method, or from nowhere a Store method reaches (constructors, start-up recovery) — must be the sweep
+			holderOrOperator := storeLeaseMethods[strings.TrimSuffix(t.Root, "Batch")] || strings.HasPrefix(t.Root, "Cancel")
+			if holderOrOperator || seenSweep[t.Stmt] || t.Kind == "insert" || t.To == "leased" {
 				continue
 			}
 			if t.HasFrom && t.From&ssParse("leased") == 0 {
@@ -317,7 +321,7 @@ func checkC03(c *Ctx) {
 			}
 			c.Check(ok && op == "<=" && k == "now" && t.HasFrom && t.From == ssParse("leased") && t.To == "queued", "C03.R5", m.Key(t.Stmt)+":sweep-guard", t.Pos,
 				"sweep: state='leased' AND lease_until <= now → queued",
-				fmt.Sprintf("a statement reachable from Dequeue can take rows out of leased (from %s to %q) without the guard lease_until <= now (found: lease_until %s %s, %s)", t.From, t.To, op, m.R(t.Stmt, operand), k))
+				fmt.Sprintf("a statement (reachable from "+t.Root+") can take rows out of leased (from %s to %q) without the guard lease_until <= now (found: lease_until %s %s, %s)", t.From, t.To, op, m.R(t.Stmt, operand), k))
 		}
 	}
 	for i := range sf.Events {
